@@ -230,11 +230,7 @@ class Chunk:
             target_size_mb=self.target_size_mb,
         )
 
-        if self.promised_continuity:
-            subruns_first_chunk, subruns_second_chunk = _split_runs_in_chunk(self.subruns, t)
-        else:
-            # The split will not update the subruns or superrun.
-            subruns_first_chunk = subruns_second_chunk = self.subruns
+        subruns_first_chunk, subruns_second_chunk = _split_runs_in_chunk(self.subruns, t)
 
         superrun_first_chunk, superrun_second_chunk = _split_runs_in_chunk(self.superrun, t)
         # If the superrun is split and the fragment cover only one run,
